@@ -199,7 +199,9 @@ func c16Run(r *core.Run) {
 			r.Fail("message", "C16/submitted-document-not-wellformed", ctx)
 		} else if d.Root().Tag != kind {
 			r.Fail("message", "C16/submitted-document-has-wrong-kind", ctx)
-		} else if f := world.ReadSigFacts(d.Root()); f.Present {
+		} else if f := world.ReadSigFacts(d.Root()); f.Present != signed {
+			r.Fail("message", fmt.Sprintf("C16/wrong-choice-of-signed-or-unsigned-document/%s/want-signed=%v/%s", builder, signed, o.KeyCfg()), ctx)
+		} else if f.Present {
 			if err := world.VerifyEnveloped(d.Root(), o.WantSignCert.DER, o.Node.Clock.Dsig()); err != nil {
 				ctx["err"] = fmt.Sprint(err)
 				r.Fail("message", "C16/submitted-signature-does-not-verify", ctx)
@@ -230,10 +232,12 @@ func c16Produce(r *core.Run, o *Out, builder, relay string, signed bool) (page, 
 		switch builder {
 		case "BuildAuthBodyPost":
 			kind, endpoint = "AuthnRequest", o.Cfg.IdPSSOURL
+			sp.SignAuthnRequests = signed // this builder chooses the signed or unsigned document itself
 			page, err = sp.BuildAuthBodyPost(relay)
 			return err
 		case "BuildAuthBodyPostFromDocument":
 			kind, endpoint = "AuthnRequest", o.Cfg.IdPSSOURL
+			sp.SignAuthnRequests = signed // BuildAuthRequestDocument signs only when request signing is on
 			if signed {
 				d, err = sp.BuildAuthRequestDocument()
 			} else {
